@@ -84,6 +84,21 @@ def tclass(M):
 TS = [i / 8.0 for i in range(9)]
 
 
+def npoint_agrees(seg, what, tol):
+    """the vectorised form of point(): same points, in order"""
+    try:
+        pts = list(seg.npoint(TS))
+    except Exception as e:
+        return [{"clause": "PointRaises", "detail": "%s: npoint raised %s: %s" % (what, type(e).__name__, str(e)[:60])}]
+    if len(pts) != len(TS):
+        return [{"clause": "NPoint", "detail": "%s: npoint(%d positions) returned %d points" % (what, len(TS), len(pts))}]
+    for t, q in zip(TS, pts):
+        p = seg.point(t)
+        if abs(q[0] - p.x) > tol or abs(q[1] - p.y) > tol:
+            return [{"clause": "NPoint", "detail": "%s: npoint at %s = %r, point(%s) = %r" % (what, t, tuple(q), t, p)}]
+    return []
+
+
 def compare(seg, img, what, scale):
     """real segment against the spec image"""
     dis = []
@@ -110,6 +125,7 @@ def compare(seg, img, what, scale):
             if not near(p, f(t)):
                 dis.append({"clause": "ArcPoint", "detail": "%s: point(%s) = %r, image of the original point is %r" % (what, t, p, f(t)), "t": t})
                 break
+        dis += npoint_agrees(seg, what, tol)
     else:
         names = {"L": ["start", "end"], "Q": ["start", "control", "end"], "C": ["start", "control1", "control2", "end"]}[k]
         for nm, w in zip(names, img[1:]):
@@ -121,6 +137,7 @@ def compare(seg, img, what, scale):
             if not near(p, f(t)):
                 dis.append({"clause": "BezierPoint", "detail": "%s: point(%s) = %r, expected %r" % (what, t, p, f(t))})
                 break
+        dis += npoint_agrees(seg, what, tol)
     return dis
 
 
